@@ -332,7 +332,7 @@ def run_job(job, io):
             if which == 0:
                 args_cls = 42
                 expect_exc = (TypeError,)
-            elif which == 1 and opk == 'register':
+            elif which == 1 and opk in ('register', 'register_class'):
                 kwargs['path_entry_type'] = int
                 expect_exc = (TypeError,)
             elif which == 2:
@@ -380,10 +380,21 @@ def run_job(job, io):
                 if opk == 'register':
                     optree.register_pytree_node(args_cls, f.flatten, f.unflatten, namespace=ns_arg, **kwargs)
                 else:
-                    if tape.draw(2, 'deco') == 0 or sweep is not None:
-                        optree.register_pytree_node_class(args_cls, namespace=ns_arg)
+                    form = tape.draw(4, 'deco') if sweep is None else 0
+                    pet = {}
+                    if tape.draw(3, 'class-pet') == 2 and sweep is None:
+                        pet = {'path_entry_type': optree.GetAttrEntry}
+                    if 'path_entry_type' in kwargs:
+                        pet = {'path_entry_type': kwargs['path_entry_type']}
+                    if form == 0:
+                        optree.register_pytree_node_class(args_cls, namespace=ns_arg, **pet)
+                    elif form == 1:
+                        optree.register_pytree_node_class(namespace=ns_arg, **pet)(args_cls)
+                    elif form == 2 and isinstance(ns_arg, str) and ns_arg:
+                        optree.register_pytree_node_class(ns_arg, **pet)(args_cls)  # positional-string form
                     else:
-                        optree.register_pytree_node_class(namespace=ns_arg)(args_cls)
+                        optree.register_pytree_node_class(None, namespace=ns_arg, **pet)(args_cls)
+                    probes['class-form:%d' % form] += 1
                 rid[0] += 1
                 model.reg[(key_ns, cls)] = f
                 all_funcs.append(f)
